@@ -82,20 +82,23 @@ class Check(PropertyCheck):
                   "through hook sequences and comparing the file after each hook, and by truncated real files.")
     level_note = ("trusted: Lean kernel; differential tie (all offsets of sampled files, sampled hook sequences); the file "
                   "system appends bytes in order, so a crash leaves a prefix of what was written (os/file semantics are "
-                  "assumed, not modelled); which Save hook calls save_flow is validated by the harness against the real "
-                  "addon, the Lean model only knows noop/save/done events; from_state∘migrate_flow is a parameter of the "
+                  "assumed, not modelled); which Save hook or option update writes, keeps or restarts the file is validated by "
+                  "the harness against the real addon (flowfilter decides which flows match), the Lean model only knows "
+                  "noop/save/done events on one file; from_state∘migrate_flow is a parameter of the "
                   "reader model and the equality of loaded flows with the written ones is validated by the harness.")
     technique = "Lean 4 proof (prefix decomposition + reader loop induction) + differential truncation/hook correspondence"
     rule = ("trunc: a file of 1-4 flows of random types (every serialised field randomised, or the stock test flows) written "
             "with FlowWriter or FilteredFlowWriter, cut at every offset of a window of <=500 offsets and read back; hooks: the "
-            "real Save addon streaming to a file through an interleaved hook sequence of 2-5 flows of mixed types, file read "
-            "after each hook; real: explicit save.file to a real file, truncated copies read with read_flows_from_paths. "
+            "real Save addon streaming to a file through an interleaved hook sequence of 2-5 flows of mixed types with option "
+            "updates while the stream runs (save_stream_filter set/changed/cleared; save_stream_file re-stated, mode toggled, "
+            "switched to a second path, stopped and restarted; append and overwrite mode), every file read after each event: "
+            "finished flows may never disappear (only a user-requested overwrite-mode (re)open may start a file afresh); real: explicit save.file to a real file, truncated copies read with read_flows_from_paths. "
             "distinct = distinct (file, window) / hook script; non-trivial = at least one cut strictly inside a record.")
     budget = {"quick": 400, "thorough": 24000}
     time_budget = {"quick": 22, "thorough": 420}
     fingerprints = ["mitmproxy.io.io:FlowWriter.add", "mitmproxy.io.io:FilteredFlowWriter.add", "mitmproxy.io.io:FlowReader.stream",
                     "mitmproxy.io.io:read_flows_from_paths", "mitmproxy.io.tnetstring:load", "mitmproxy.io.tnetstring:dump",
-                    "mitmproxy.addons.save:Save.save_flow", "mitmproxy.addons.save:Save.done", "mitmproxy.addons.save:Save.save",
+                    "mitmproxy.addons.save:Save.save_flow", "mitmproxy.addons.save:Save.configure", "mitmproxy.addons.save:Save.done", "mitmproxy.addons.save:Save.save",
                     "mitmproxy.addons.save:Save.maybe_rotate_to_new_file", "mitmproxy.addons.save:Save.response",
                     "mitmproxy.addons.save:Save.websocket_end", "mitmproxy.addons.save:Save.tcp_end",
                     "mitmproxy.addons.save:Save.udp_end", "mitmproxy.addons.save:Save.dns_response",
@@ -141,6 +144,8 @@ class Check(PropertyCheck):
                 _, data, bounds = self.file_for(base)
                 if tier == "thorough":
                     yield from self.windows(base, len(data))
+                    for _ in range(6):          # keep hook/option sequences a steady share of the (window-dominated) thorough tier
+                        yield {"k": "hooks", "seed": rng.getrandbits(48)}
                 else:
                     # quick: a window around one record boundary (all offsets of whole files are the stock flows above)
                     b = rng.pick(bounds)
@@ -210,86 +215,158 @@ class Check(PropertyCheck):
         raise ValueError(k)
 
     # -- the real Save addon, streaming ----------------------------------------------------------
+    SAVE_HOOKS = ("response", "error", "websocket_end", "tcp_end", "tcp_error", "udp_end", "udp_error", "dns_response", "dns_error")
+    FILTERS = [None, "~http", "~tcp", "~udp", "~dns", "!~tcp", "~websocket", "~q", "~e", "~all", "~marked", "~replay", "!~dns"]
+
     def hook_script(self, case):
+        """-> flows, initial (spec, filter), events. Events: ("hook", j, name) | ("filter", expr) | ("file", spec) |
+        ("stop",). Paths are "A"/"B" (two files in a scratch directory), a leading "+" = append mode."""
+        if "script" in case:
+            flows = [build_flow(sp) for sp in case["specs"]]
+            return flows, tuple(case["init"]), [tuple(e) for e in case["script"]]
         r = random.Random(case["seed"])
         specs = rspecs(r, n=r.choice([2, 3, 3, 4, 5]), plain_p=0.4)
-        flows = [build_flow(s) for s in specs]
+        flows = [build_flow(sp) for sp in specs]
         per = []
-        for f, s in zip(flows, specs):
-            t = s["t"]
+        for f, sp in zip(flows, specs):
+            t = sp["t"]
             if t == "http":
-                if f.websocket is not None: f.websocket = None
                 end = "response" if f.response is not None and r.random() < 0.8 else "error"
                 seq = ["request", end]
             elif t == "ws":
-                if f.response is None: f.response = http.Response.make(101)
                 seq = ["request", "response", "websocket_end"]      # response must NOT persist a websocket flow
             elif t == "tcp": seq = ["tcp_start", r.choice(["tcp_end", "tcp_error"])]
             elif t == "udp": seq = ["udp_start", r.choice(["udp_end", "udp_error"])]
             else: seq = ["dns_request", r.choice(["dns_response", "dns_error"])]
             if r.random() < 0.25: seq = seq[:-1]                      # never finishes: written by done()
             per.append(seq)
-        # interleave
         script, idx = [], [0] * len(flows)
-        while any(i < len(p) for i, p in zip(idx, per)):
+        while any(i < len(q) for i, q in zip(idx, per)):
             j = r.choice([j for j in range(len(flows)) if idx[j] < len(per[j])])
-            script.append((j, per[j][idx[j]])); idx[j] += 1
-        return flows, script
+            script.append(("hook", j, per[j][idx[j]])); idx[j] += 1
+        # option updates while the stream is running
+        plus = r.choice(["", "", "+"])
+        init = (plus + "A", r.choice([None, None, None] + self.FILTERS))
+        if case.get("options", 1):
+            for _ in range(r.choice([0, 1, 1, 2, 3])):
+                c = r.random()
+                if c < 0.5: ev = [("filter", r.choice(self.FILTERS))]
+                elif c < 0.6: ev = [("file", "same")]                              # the current spec once more
+                elif c < 0.7: ev = [("file", "toggle")]                            # same path, other mode
+                elif c < 0.85: ev = [("file", r.choice(["", "+"]) + r.choice(["A", "B"]))]
+                else: ev = [("stop",), ("file", r.choice(["", "+"]) + r.choice(["A", "A", "B"]))]
+                k = r.randint(0, len(script))
+                script[k:k] = ev
+        return flows, init, script
 
     def run_hooks(self, case):
-        flows, script = self.hook_script(case)
+        from mitmproxy import flowfilter
+        flows, init, script = self.hook_script(case)
         d = tempfile.mkdtemp(prefix="c37-")
-        path = os.path.join(d, "stream.mitm")
+        real = {"A": os.path.join(d, "a.mitm"), "B": os.path.join(d, "b.mitm")}
         steps, bad = [], []
-        saved = []            # canonical states expected in the file, in order
-        prev = b""
+        exp, wires = {}, {}         # per file: canonical states / wire forms that have to be in it, in order
+        st = {"cur": None, "spec": None, "filt": None, "active": False}
+
+        def content(name):
+            try:
+                with open(real[name], "rb") as fo: return fo.read()
+            except FileNotFoundError:
+                return b""
+
+        def matches(f):
+            return st["filt"] is None or bool(flowfilter.match(flowfilter.parse(st["filt"]), f))
+
+        def check_all(label):
+            # "a stream file is complete up to the last finished flow at any moment": every file written so far still
+            # reads as all the flows finished (and matching) while it was the stream file, in order
+            for name in exp:
+                res, states = run_reader(io.BytesIO(content(name)), want_states=True)
+                got = [state_canon(x) for x in states]
+                if (res[0] != len(exp[name]) or res[1] not in ("clean", "flowRead") or got != exp[name]) and len(bad) < 4:
+                    lost = len(exp[name]) - res[0]
+                    bad.append([label, f"file {name} reads as {res}; {len(exp[name])} finished flows belong in it"
+                                       + (f" ({lost} finished flows were lost)" if lost > 0 else "") + f"; flows-equal={got == exp[name]}"])
+
+        def open_file(tctx, sa, spec, label):
+            name, plus = spec.lstrip("+"), spec.startswith("+")
+            same = st["active"] and name == st["cur"]
+            tctx.configure(sa, save_stream_file=("+" if plus else "") + real[name])
+            if same:
+                # the user re-stated the option for the file that is being streamed to. Continuing is fine; an overwrite-mode
+                # spec may also start the file afresh (that is what the option says); an append-mode spec may not lose data.
+                if not plus and exp.get(name) and content(name) == b"":
+                    exp[name], wires[name] = [], []
+                    ops = ["reset"]
+                else:
+                    ops = ["noop"]
+            else:
+                if plus:
+                    exp.setdefault(name, []); wires.setdefault(name, [])
+                else:
+                    exp[name], wires[name] = [], []
+                ops = ["reset"] + ["save " + w for w in wires[name]]
+            st.update(cur=name, spec=spec, active=True)
+            return ops
+
         try:
             sa = save_addon.Save()
             with addon_ctx(sa) as tctx:
-                tctx.configure(sa, save_stream_file=path)
-                def snapshot(label, event):
-                    nonlocal prev
-                    with open(path, "rb") as fo: cur = fo.read()
-                    res, states = run_reader(io.BytesIO(cur), want_states=True)
-                    got = [state_canon(s) for s in states]
-                    grew = cur[:len(prev)] == prev
-                    # "a stream file is complete up to the last finished flow at any moment"
-                    ok = res[0] == len(saved) and res[1] in ("clean", "flowRead") and got == saved
-                    if not ok and len(bad) < 4:
-                        bad.append([label, f"after this hook the file reads as {res}; {len(saved)} flows were finished; flows-equal={got == saved}; append-only={grew}"])
-                    steps.append({"hook": label, "event": event, "len": len(cur), "wires": list(pending_wires)})
-                    prev = cur
-                pending_wires = []
-                for j, hook in script:
-                    f = flows[j]
-                    will_save = hook in ("response", "error", "websocket_end", "tcp_end", "tcp_error", "udp_end", "udp_error",
-                                         "dns_response", "dns_error") and not (hook in ("response", "error") and getattr(f, "websocket", None) is not None)
-                    pending_wires = []
-                    if will_save:
-                        saved.append(state_canon(f.get_state()))
-                        pending_wires = [to_wire(f.get_state())]        # the state handed to the writer by this hook
-                    getattr(sa, hook)(f)
-                    snapshot(hook, "save" if will_save else "noop")
-                # done(): every flow that was started but not saved
-                pending = [f for f in sa.active_flows]
-                for f in pending: saved.append(state_canon(f.get_state()))
-                tctx.configure(sa, save_stream_file=None)
-                with open(path, "rb") as fo: final = fo.read()
-                res, states = run_reader(io.BytesIO(final), want_states=True)
-                got = [state_canon(s) for s in states]
-                grew = final[:len(prev)] == prev
-                ok = res[0] == len(saved) and res[1] in ("clean", "flowRead") \
-                    and sorted(map(json.dumps, got)) == sorted(map(json.dumps, saved)) \
-                    and got[:len(saved) - len(pending)] == saved[:len(saved) - len(pending)]
-                if not ok and len(bad) < 4:
-                    bad.append(["done", f"after done() the file reads as {res}; {len(saved)} flows were written; append-only={grew}"])
-                # done() walks a set: the order in which it wrote the pending flows is read off the file (by flow id)
-                by_id = {f.id: to_wire(f.get_state()) for f in pending}
-                order = [st["id"] for st in states[len(saved) - len(pending):]]
-                steps.append({"hook": "done", "event": "done", "len": len(final), "wires": [by_id[i] for i in order if i in by_id]})
+                if init[1] is not None:
+                    st["filt"] = init[1]
+                    tctx.configure(sa, save_stream_filter=init[1])
+                ops = open_file(tctx, sa, init[0], "start")
+                check_all("start")
+                steps.append({"ev": "start " + init[0], "ops": ops, "len": len(content(st["cur"]))})
+                for ev in list(script) + [("stop",)]:
+                    label = " ".join(str(x) for x in ev)
+                    if ev[0] == "hook":
+                        f, hook = flows[ev[1]], ev[2]
+                        will_save = st["active"] and hook in self.SAVE_HOOKS and matches(f) \
+                            and not (hook in ("response", "error") and getattr(f, "websocket", None) is not None)
+                        ops = ["noop"]
+                        if will_save:
+                            exp[st["cur"]].append(state_canon(f.get_state()))
+                            w = to_wire(f.get_state()); wires[st["cur"]].append(w)
+                            ops = ["save " + w]                 # the state handed to the writer by this hook
+                        getattr(sa, hook)(f)
+                    elif ev[0] == "filter":
+                        st["filt"] = ev[1]
+                        tctx.configure(sa, save_stream_filter=ev[1])
+                        ops = ["noop"]                          # a filter change does not touch what is in the file
+                    elif ev[0] == "file":
+                        spec = ev[1]
+                        if spec == "same": spec = st["spec"]
+                        elif spec == "toggle": spec = st["spec"][1:] if st["spec"].startswith("+") else "+" + st["spec"]
+                        ops = open_file(tctx, sa, spec, label)
+                    else:
+                        ops = ["noop"]
+                        if st["active"]:
+                            pending = [f for f in sa.active_flows if matches(f)]
+                            before = len(exp[st["cur"]])
+                            tctx.configure(sa, save_stream_file=None)
+                            # done() walks a set: the order in which it wrote the pending flows is read off the file
+                            # (matched by full state — flow ids are random strings and may coincide)
+                            pend = [(state_canon(f.get_state()), f) for f in pending]
+                            _, states = run_reader(io.BytesIO(content(st["cur"])), want_states=True)
+                            order, left = [], list(pend)
+                            for x in states[before:]:
+                                cx = state_canon(x)
+                                hit = next((i for i, (c, _) in enumerate(left) if c == cx), None)
+                                if hit is not None: order.append(left.pop(hit))
+                            order += left                        # anything not found in the file: the oracle below reports it
+                            for c, f in order:
+                                exp[st["cur"]].append(c)
+                                wires[st["cur"]].append(to_wire(f.get_state()))
+                            ops = ["done " + (";".join(to_wire(f.get_state()) for _, f in order) or "-")]
+                            st["active"] = False
+                    check_all(label)
+                    steps.append({"ev": label, "ops": ops, "len": len(content(st["cur"]))})
+            final = content(st["cur"])
         finally:
             shutil.rmtree(d, ignore_errors=True)
-        return {"steps": steps, "bad": bad, "final_hex": hx(final), "n_flows": len(flows), "script": [h for _, h in script]}
+        return {"steps": steps, "bad": bad, "final_hex": hx(final), "n_flows": len(flows),
+                "script": [s_["ev"].split(" ")[-1] if s_["ev"].startswith("hook") else s_["ev"] for s_ in steps]}
 
     # -- explicit save to a real file, truncated copies ------------------------------------------
     def run_real(self, case):
@@ -363,11 +440,8 @@ class Check(PropertyCheck):
             lines.append(f"cuts {BIG} {D_NORMAL} {'o' * n or '-'} {obs['data_hex']} {','.join(map(str, obs['tie_offsets']))}")
             return lines
         if k == "hooks":
-            lines = ["reset"]
-            for st in obs["steps"]:
-                if st["event"] == "noop": lines.append("noop")
-                elif st["event"] == "save": lines.append("save " + (st["wires"][0] if st["wires"] else "n"))
-                else: lines.append("done " + (";".join(st["wires"]) or "-"))
+            lines = []
+            for stp in obs["steps"]: lines += stp["ops"]
             lines.append("file")
             return lines
 
@@ -377,7 +451,10 @@ class Check(PropertyCheck):
             out = {"cuts": replies[-1].split(",")}
             if len(replies) > 1: out["file"] = replies[-2]
             return out
-        return {"lens": replies[1:-1], "file": replies[-1]}
+        lens, i = [], 0
+        for stp in self._obs(case)["steps"]:
+            i += len(stp["ops"]); lens.append(replies[i - 1])       # file length after the last operation of each step
+        return {"lens": lens, "file": replies[-1]}
 
     def impl_view(self, case, obs):
         k = case["k"]
@@ -396,8 +473,8 @@ class Check(PropertyCheck):
         k = case["k"]
         out = ["kind:" + k]
         if k == "hooks":
-            out += ["hook:" + h for h in set(obs["script"])]
-            out.append("hooks:done-writes:%d" % min(3, len(obs["steps"][-1]["wires"])))
+            for h in set(obs["script"]):
+                out.append(("hook:" if " " not in h else "option:") + (h if " " not in h else " ".join(h.split(" ")[:2]).replace("None", "-")))
         else:
             out += ["flow:" + t for t in set(sp["t"] for sp in case["specs"])]
             out.append("records:%d" % (len(obs["bounds"]) - 1))
